@@ -62,7 +62,7 @@ EXPLICIT = {
     "Integer::dec": ["sub_assign"], "Integer::inc": ["add_assign"],
     "Integer::div_floor": ["wrapping_div"], "Integer::mod_floor": ["wrapping_rem"],
     "Integer::div_mod_floor": ["div_rem"], "Integer::extended_gcd": ["gcd_extended"],
-    "Integer::is_even": ["bit"], "Integer::is_odd": ["bit"],
+    "Integer::is_even": ["bit", "is_odd"], "Integer::is_odd": ["bit", "is_even"],
     "Inv::inv": ["inv_ring"],
     "PrimInt::from_be": ["swap_bytes"], "PrimInt::to_be": ["swap_bytes"],
     "PrimInt::signed_shl": ["shl"], "PrimInt::unsigned_shl": ["shl"],
@@ -72,6 +72,10 @@ EXPLICIT = {
 # facades whose result is the delegate's result through exactly these value operations
 RESULT_OPS = {
     "Integer::is_even": {"Not"},
+}
+# ... unless the delegate is the complementary sibling facade (`is_even = !is_odd`, `is_odd = !is_even`)
+RESULT_OPS_BY_DELEGATE = {
+    ("Integer::is_even", "is_odd"): {"Not"}, ("Integer::is_odd", "is_even"): {"Not"},
 }
 # constant second arguments
 CONST_ARGS = {
@@ -351,6 +355,7 @@ def run(ctx, config="all", traits=None, floor=None):
     prog = ctx.prog(config)
     _PROG[0] = prog
     bodies = facade_bodies(prog)
+    deleg = {}
     if traits is not None:
         bodies = [b for b in bodies if b["file"] in ("src/bits.rs", "src/add.rs", "src/mul.rs", "src/div.rs")
                   and fkey(prog, b).split("::")[0] in traits]
@@ -411,8 +416,13 @@ def run(ctx, config="all", traits=None, floor=None):
         if variant in COMPOSITES or fk in COMPOSITES:
             # compared as SETS of operations, observers (is_zero, ==, <, cmp ...) left out: how often a zero test is
             # made, and whether it is spelled is_zero() or == ZERO, is not part of what the facade computes
-            want = [sorted(set(w) - OBSERVERS) for w in COMPOSITES.get(variant, COMPOSITES.get(fk))]
-            got = sorted({norm_op(n) for n in names} - OBSERVERS)
+            # inside a composite the checked_ form of an operation is that operation with its failure case matched
+            # explicitly (`match a.checked_rem(b) { Some(r) => .., None => .. }` for `if b.is_zero() {..} a % b`)
+            def comp_op(n_):
+                n_ = norm_op(n_)
+                return n_[len("checked_"):] if n_.startswith("checked_") else n_
+            want = [sorted({comp_op(x) for x in w} - OBSERVERS) for w in COMPOSITES.get(variant, COMPOSITES.get(fk))]
+            got = sorted({comp_op(n) for n in names} - OBSERVERS)
             if got in want:
                 rep.ok(key, where, "composite of %s" % got)
             elif fk in REIMPLEMENTABLE and any(prog.bodies[c[2]]["file"].startswith("src/algorithms") or
@@ -490,6 +500,7 @@ def run(ctx, config="all", traits=None, floor=None):
                 continue
         bi, t, dname = calls[0]
         d = prog.bodies[dname]
+        deleg[b["key"]] = dname
         allowed = [b["name"]] + EXPLICIT.get(fk, [])
         ok = False
         for a in allowed:
@@ -577,7 +588,7 @@ def run(ctx, config="all", traits=None, floor=None):
                 rep.ok(key, where, "%s -> %s (result selects the returned constant)" % (fk, short(dname)))
                 continue
         extra = sorted({short(c) for c in out_sl.local_calls if not is_plumbing(c) and c != dname})
-        want_ops = RESULT_OPS.get(fk, set())
+        want_ops = RESULT_OPS_BY_DELEGATE.get((fk, d["name"]), RESULT_OPS.get(fk, set()))
         got_ops = out_sl.ops - {"PtrMetadata"}
         if fk in ("Shl::shl", "Shr::shr"):
             got_ops = set()
@@ -595,6 +606,10 @@ def run(ctx, config="all", traits=None, floor=None):
                 rep.violation(key + "|result", where, "%s: the delegate's result does not reach the return value" % fk)
         else:
             rep.ok(key, where, "%s -> %s" % (fk, short(dname)))
+    for a_, d_ in sorted(deleg.items()):
+        if deleg.get(d_) == a_ and a_ < d_:
+            rep.violation(a_.replace("crate::", "") + "|mutual-recursion", "", "%s and %s forward to each other: unconditional "
+                          "recursion" % (short(a_), short(d_)))
     rep.analysed = {"build_config": config, "facades": len(bodies), "per_file": counts}
     if traits is not None:
         rep.analysed["traits"] = sorted(traits)
